@@ -7,12 +7,12 @@ same group values), `BaseMergedParser._date_time_resolution/_resolve_ampm`, `Bas
 import datetime
 import itertools
 
-from lib import common, dtres, timeperiodcorr
+from lib import common, dtres, timeperiodcorr, timefrontcorr
 from lib.common import cps
 
 PROP = 'C07'
 LEVEL = 'proof'
-PROPS_MODULES = ['RTV.Props.C07', 'RTV.Props.C07Ranges', 'RTV.Props.C07TimePeriod']
+PROPS_MODULES = ['RTV.Props.C07', 'RTV.Props.C07Ranges', 'RTV.Props.C07TimePeriod', 'RTV.Props.C07Front']
 GEN = ['chartables', 'dtmaps']
 REQUIRED_THEOREMS = ['clock24', 'clock24_partial', 'clock24_hour0_unresolved', 'clock24_hour0_repaired', 'clock12',
                      'clock12_partial', 'ambiguous_two_readings', 'date_at_time', 'date_at_time_unambiguous',
@@ -28,7 +28,10 @@ REQUIRED_THEOREMS = ['clock24', 'clock24_partial', 'clock24_hour0_unresolved', '
                      'pure_pm_rule', 'pure_am_rule', 'pure_triple_consistent', 'specific_both_described',
                      'specific_triple_consistent', 'specific_right_pm_rule', 'specific_12am_end_witness', 'specific_seconds_witness',
                      'specific_minute_side_witness', 'parse_specific_shadows_merge', 'tod_table_rows', 'tod_windows',
-                     'now_is_reference_datetime', 'end_of_day_is_235959', 'ago_later_seconds', 'ago_later_spec']
+                     'now_is_reference_datetime', 'end_of_day_is_235959', 'ago_later_seconds', 'ago_later_spec',
+                     # Props/C07Front (text -> groups: parse_basic_regex_match on the regenerated English time regexes)
+                     'front_groups_en', 'front_clock24', 'front_clock12', 'front_ambiguous_two_readings', 'front_hhmmss_engine',
+                     'front_2500_rejected', 'front_765_rejected', 'layouts_shape']
 RULE = ('unit: DateTimeFormatUtil over full ranges (luis_time/short_time 24x60x{none,0..59}, luis_date, format_*, '
         'to_pm, all_str_to_pm); match_to_time on every match of AtRegex/TimeRegex1..11/ConnectNumRegex over generated '
         'English time strings (digits x minutes x seconds x am/pm spellings x prefixes x suffixes x written forms); '
@@ -1116,5 +1119,10 @@ def correspond(ctx):
     unit_merge(ctx, T, variant)
     unit_time_of_today(ctx, T)
     unit_time_ranges(ctx, T)
+    timefrontcorr.run(ctx, T, variant)   # parse_basic_regex_match: text -> groups (RTV.Model.TimeFront; Props/C07Front)
     timeperiodcorr.run(ctx, T)   # BaseTimePeriodParser / BaseDateTimeParser computations (RTV.Model.TimePeriod; Props/C07TimePeriod)
     pipeline(ctx, variant)
+
+
+def search(ctx, proof_problems):
+    timefrontcorr.search(ctx, proof_problems, variant_of_tree)   # front-end obligations: layout x time grid, replayed on the pipeline
